@@ -3,6 +3,12 @@ from . import encoder
 from ..facts import fn_refs
 
 EXPLANATION = (
+    "(whole) On the expression catalogue (sa/rules/exhaust.py, all flavours: ~18 000 expressions, of which the rule checker's "
+    "verdict keeps ~6 000) the program text encode::compile emits for the tree is compared, as an automaton, with the language "
+    "the README gives to the expression, written down independently of the encoder (literal = its text, `/`, `?` = one and `*` "
+    "= any number of non-separator characters, alternation = union, repetition = body m..n times, a top-level tree wildcard = "
+    "zero or more complete components with its separators): exact language equality, for the shapes of the catalogue that "
+    "have a crisp reference (no tree wildcard inside a branch, no class).  For all expressions, by structural induction: "
     "The encoder is a syntax-directed translation, so conformance follows by structural induction from finitely many "
     "obligations, each decided on the text the encoder emits in every case (grouping x enclosing context x position x "
     "token shape, extracted by evaluating the THIR of encode/compile; nothing is run): (leaf) `/` emits exactly one "
@@ -12,7 +18,7 @@ EXPLANATION = (
     "compiled with the case-insensitive flag known off; (dotall) every `.` is compiled with dot-all on; (homo) alternation "
     "= union of all branches in place, repetition = body{m,n} with the token's own bounds, concatenation in order; "
     "(anchor/delegate) the pattern is ^...$ and both Program impls match with the program compiled from their own tree.")
-RULES = "C01.leaf, C01.tree, C01.flag, C01.dotall, C01.homo, C01.anchor (EMIT), C01.delegate (SIBLING+PROV)"
+RULES = "C01.whole (TABLE on a catalogue: program vs. reference language), C01.leaf, C01.tree, C01.flag, C01.dotall, C01.homo, C01.anchor (EMIT), C01.delegate (SIBLING+PROV)"
 
 
 def run(ctx):
@@ -29,6 +35,8 @@ def run(ctx):
     encoder.rule_homo(F, R)
     encoder.rule_ctx(F, R)
     rule_delegate(F, R)
+    from . import exhaust
+    exhaust.report_query(F, R, "C01.whole", ctx.tier, "semantics", 15000, 4000)
 
 
 def rule_delegate(F, R):
